@@ -12,23 +12,28 @@
    Strings (session ids, user names, pool keys, SRG names, VRFs) are small numbers; the harness maps them to
    strings.  Addresses are numbers (32 / 128 bit).
 
-   [flags]: each flag set to [true] selects what the code does today, [false] the repaired behaviour for which
-   the property theorems are proved.  [repaired] = all false, [defective] = all true. *)
+   [flags]: each flag set to [true] re-introduces one defect that was found with this check.  [repaired] (all false)
+   is what /repo HEAD does for everything that has been fixed there AND drops a message whose sequence number is not
+   above the last one seen; [head] is /repo HEAD exactly: [repaired] plus the one finding that is still open
+   (f_stale: the receiver never compares sequence numbers).  The other flags are kept only for the historical
+   _refuted witnesses in Properties.v; the correspondence check runs [repaired] and [head] only. *)
 From OV Require Import Common.Base.
 
 Record flags := mkflags {
-  f_range : bool;   (* Range converts uint64 differences to int before comparing them *)
-  f_stale : bool;   (* receiver applies a message whose sequence is not above the last one seen *)
-  f_drop  : bool;   (* receiver never releases what an earlier checkpoint of the same session reserved *)
-  f_bulk  : bool;   (* bulk replay of the backlog sends checkpoints without their action *)
-  f_relall : bool;  (* release by address from every pool / first containing pool, ignoring the pool name *)
-  f_window : bool   (* bulk sync replays the retained backlog window even when it does not reach back to what the
-                       standby already has (sessions whose last update was evicted are never sent) *)
+  f_range : bool;   (* fixed in bb5ec1b: Range converted uint64 differences to int before comparing them *)
+  f_stale : bool;   (* OPEN (stale-redelivery-applied): the receiver applies a message whose sequence number is
+                       not above the last one seen *)
+  f_drop  : bool;   (* fixed in 88d6de6: the receiver never released what an earlier checkpoint of the session reserved *)
+  f_bulk  : bool;   (* fixed in 43d3a11: bulk replay of the backlog sent checkpoints without their action *)
+  f_relall : bool;  (* fixed in 88d6de6: release by address from every pool / first containing pool *)
+  f_window : bool   (* fixed in cd04fe0: bulk sync replayed the retained backlog window even when it did not reach
+                       back to what the standby already has *)
 }.
 Definition repaired : flags := mkflags false false false false false false.
+(* /repo before the C11 fixes (bb5ec1b, 88d6de6, 43d3a11, cd04fe0) *)
 Definition defective : flags := mkflags true true true true true true.
-(* /repo HEAD (43d3a11): no sequence comparison in the receiver, bulk sync always from the backlog window *)
-Definition head : flags := mkflags false true false false false true.
+(* /repo HEAD (cd04fe0): everything fixed except the sequence comparison in the receiver *)
+Definition head : flags := mkflags false true false false false false.
 
 (* ---------- association lists ---------- *)
 Section Assoc.
@@ -153,7 +158,7 @@ Fixpoint collect (b : ring) (start : Z) (i : nat) (n : nat) : result (list (opti
       end
   end.
 
-(* backlog.go Range, literally (what the code does today) *)
+(* backlog.go Range before bb5ec1b, literally *)
 Definition range_def (b : ring) (from to : Z) : result (list (option req)) :=
   if (r_size b =? 0)%nat then Ok [] else
   match entry_seq b (oldest_idx b) with
@@ -170,7 +175,7 @@ Definition range_def (b : ring) (from to : Z) : result (list (option req)) :=
   | _ => Panic
   end.
 
-(* repaired Range: clamp in uint64 before converting (fixes/C11_backlog_range_u64.patch) *)
+(* backlog.go Range (bb5ec1b): clamp in uint64 before converting *)
 Definition range_rep (b : ring) (from to : Z) : result (list (option req)) :=
   if (r_size b =? 0)%nat then Ok [] else
   match entry_seq b (oldest_idx b) with
@@ -301,7 +306,7 @@ Definition reserve_d (pools : list (N * pdpool)) (name : N) (p : N * N) (sid : N
   | None => pools
   end.
 
-(* repaired release: same resolution as the reservation *)
+(* Registry.Release*InPool (88d6de6): same resolution as the reservation *)
 Definition release_v (pools : list (N * pool)) (name a : N) : list (N * pool) :=
   match resolve_v pools name a with
   | Some n => upd_pool pools n (fun p => p_release p a)
@@ -312,7 +317,7 @@ Definition release_d (pools : list (N * pdpool)) (name : N) (p : N * N) : list (
   | Some n => upd_pd pools n (fun d => d_release d p)
   | None => pools
   end.
-(* today: ReleaseIP / ReleaseIANAByIP release from every allocator; ReleasePDByPrefix from the first containing *)
+(* before 88d6de6: ReleaseIP / ReleaseIANAByIP release from every allocator; ReleasePDByPrefix from the first containing *)
 Definition release_v_all (pools : list (N * pool)) (a : N) : list (N * pool) :=
   map (fun np => (fst np, mkpool (p_start (snd np)) (p_end (snd np)) (p_excl (snd np)) (p_release (snd np) a))) pools.
 Definition release_d_first (pools : list (N * pdpool)) (p : N * N) : list (N * pdpool) :=
@@ -383,8 +388,8 @@ Definition recv_step (fl : flags) (rc : receiver) (q : req) : receiver :=
   end.
 
 (* HandleSyncSession when the store write fails (opdb Put/Delete error): the handler returns the error before any
-   reservation is touched.  Today lastSeq has already been overwritten at that point; the repaired receiver (which
-   drops what is not above lastSeq) must leave lastSeq alone, or the retransmission would be dropped as stale. *)
+   reservation is touched.  /repo HEAD has already overwritten lastSeq at that point; a receiver that drops what is
+   not above lastSeq ([repaired]) must leave lastSeq alone, or the retransmission would be dropped as stale. *)
 Definition recv_fail (fl : flags) (rc : receiver) (q : req) : receiver :=
   if f_stale fl then mkrecv (aset N.eqb (q_srg q) (q_seq q) (rc_last rc)) (rc_store rc) (rc_reg rc) else rc.
 
@@ -399,8 +404,8 @@ Fixpoint somes (l : list (option req)) : list req * bool :=
   end.
 
 (* server.go BulkSync (from the backlog) + HandleBulkSyncPage.
-   today (f_bulk): every entry's checkpoint is stored, whatever its action;
-   repaired (fixes/C11_bulk_latest_live.patch): only the latest entry of each session is replayed, and only when it
+   before 43d3a11 (f_bulk): every entry's checkpoint was stored, whatever its action;
+   since 43d3a11: only the latest entry of each session is replayed, and only when it
    is not a DELETE.  In both, lastSeq becomes the sequence of the last entry of the window. *)
 Definition has_later (k : N * N) (l : list req) : bool := existsb (fun q => keyeqb k (cp_key (q_cp q))) l.
 Fixpoint compact (l : list req) : list checkpoint :=
@@ -418,7 +423,7 @@ Definition recv_bulk (fl : flags) (rc : receiver) (srg : N) (entries : list req)
               then mkrecv (aset N.eqb srg (q_seq q) (rc_last rc1)) (rc_store rc1) (rc_reg rc1) else rc1
   | [] => rc1
   end.
-(* pages sent: today one per pageSize entries; repaired one per pageSize checkpoints, at least one *)
+(* pages sent: before 43d3a11 one per pageSize entries; now one per pageSize checkpoints, at least one *)
 Definition bulk_pages (fl : flags) (entries : list req) (pagesz : nat) : nat :=
   let n := length (bulk_cps fl entries) in
   let p := ((n + pagesz - 1) / pagesz)%nat in
@@ -478,8 +483,8 @@ Fixpoint iter_n {A} (n : nat) (f : A -> A) (x : A) : A := match n with O => x | 
 
 (* BulkSync: the answer of Range is a VALUE — what the active node does between two pages (the [churn]) cannot change
    it.  Afterwards the in-order stream resumes behind the sequence the bulk sync ended with. *)
-(* bulkSyncFromIterators as repaired (fixes/C11_bulk_snapshot_when_behind.patch): the checkpoints of all live sessions
-   of the SRG, the pages carry the sender's sequence number *)
+(* bulkSyncFromIterators (cd04fe0): the checkpoints of all live sessions of the SRG, the pages carry the sender's
+   sequence number *)
 Definition snapshot_cps (y : sys) (srg : N) : list checkpoint :=
   map (fun ks => s2c (snd ks)) (filter (fun ks => N.eqb (s_srg (snd ks)) srg) (y_live y)).
 Definition recv_snapshot (fl : flags) (rc : receiver) (srg seq : N) (cps : list checkpoint) : receiver :=
@@ -621,7 +626,7 @@ Inductive delivery (reqs : list req) : nat -> list req -> nat -> Prop :=
 | dl_next m q d m' : nth_error reqs m = Some q -> delivery reqs (S m) d m' -> delivery reqs m (q :: d) m'
 | dl_dup m k q d m' : (k < m)%nat -> nth_error reqs k = Some q -> delivery reqs m d m' -> delivery reqs m (q :: d) m'.
 
-(* what today's receiver tolerates: every retransmission starts at or before the first undelivered message and
+(* replays that a receiver without sequence comparison tolerates: every retransmission starts at or before the first undelivered message and
    runs on, without a gap, at least to the newest message delivered so far (what a replay of the backlog does) *)
 Inductive delivery_runs (reqs : list req) : nat -> list req -> nat -> Prop :=
 | dr_nil m : delivery_runs reqs m [] m
